@@ -245,7 +245,9 @@ class IoRead(OpSpec):
                 break
         if fired:
             out.probes.append("read_returned_despite_fault")
-        meta = dict(keys=den.get("keys", 4), read_from=path, read_layout=layout, lineage_layout=layout)
+        # the generation chain continues only if this read used the layout the first generation was written and parsed with
+        root_layout = getattr(fs, "lineage_layout", {}).get(path)
+        meta = dict(keys=den.get("keys", 4), read_from=path, read_layout=layout, lineage_layout=layout if layout == root_layout else ("<broken>", layout, root_layout))
         root = fs.lineage.get(path)
         meta["lineage"] = root
         meta["lineage_game"] = op["game"]
@@ -357,6 +359,9 @@ class IoWrite(OpSpec):
             fs.lineage[path] = root
         else:
             fs.lineage[path] = den
+        if not hasattr(fs, "lineage_layout"):
+            fs.lineage_layout = {}
+        fs.lineage_layout[path] = layout
         # ---- C09: read -> convert -> write
         pl = h.meta.get("pipeline")
         if pl is not None and pl.get("snap") == digest(snapshot(g.kind, h.obj)):
